@@ -10,7 +10,7 @@ with returned shapes equal to the requested ones.  Tolerance 1e-10 relative.
 """
 import numpy as np
 
-from vf.common import structured, Plan, relayout, crandn, held, violated, inconclusive, rng_for, nrm, inner, pick
+from vf.common import vary_seq, structured, Plan, relayout, crandn, held, violated, inconclusive, rng_for, nrm, inner, pick
 from vf.oracles import conv as O
 
 SPEC = {
@@ -149,7 +149,8 @@ def run_case(case):
     wit = {k: case[k] for k in ("m", "n", "mode", "strides", "multi", "ci", "co", "batch",
                                 "dd", "df", "via")}
     defined = mode == "full" or ge or le
-    kw = dict(mode=mode, strides=strides, multi_channel=multi)
+    kw = dict(mode=mode, strides=vary_seq(strides, (sum(case["rs"]) // 5) % 4),
+              multi_channel=multi)
     d0, f0 = data.copy(order="C"), filt.copy(order="C")
     try:
         if case["via"] == "func":
